@@ -295,10 +295,16 @@ class Runner:
             if os.path.lexists(p): os.unlink(p)
             return 0, '', ''
         if c.get('tmp_blocked'):
-            # something (a directory) sits at the hidden temporary name a workspace copy of the path is written under
-            for bp in c['tmp_blocked']:
-                d, f = os.path.split(sb.path(bp))
-                os.makedirs(os.path.join(d, f'.{f}.xvc-tmp'), exist_ok=True)
+            # a regular file sits where xvc keeps the temporary entries of its workspace copies (.xvc/tmp): every copy out of
+            # the cache fails in this command (the paths listed are the ones the history expects to be copied)
+            import shutil
+            t = sb.path('.xvc/tmp')
+            if os.path.isdir(t): shutil.rmtree(t)
+            open(t, 'w').close()
+            try:
+                return sb.x(*(self.cfg_args(cfg) + xvc_args(c)))
+            finally:
+                if os.path.isfile(t): os.unlink(t)
         if c.get('fsize_limit'):
             # every write beyond the limit fails with EFBIG (SIGXFSZ ignored): like a full disk or a quota
             import shlex
